@@ -29,7 +29,7 @@ FLOORS = {'library_calls': 20000, 'formula_calls': 300,
           'identity_checks': 200, 'functions_seen': 13,
           'non_text_arguments': 50, 'text_form_views': 100,
           'blank_count_cases': 40, 'texts_spelt_like_names': 300,
-          'long_concatenation_chains': 40}
+          'long_concatenation_chains': 40, 'case_folding_letters': 60}
 ANCHOR_FUNCS = {'xlcalculator/xlfunctions/text.py': [
     'LEN', 'LEFT', 'RIGHT', 'MID', 'FIND', 'REPLACE', 'UPPER', 'LOWER',
     'TRIM', 'EXACT', 'CONCAT', 'CONCATENATE']}
@@ -483,6 +483,41 @@ def run(ctx):
                          {'identity': name, 'formula': text,
                           'observed': got}, monitor='identities',
                          group='identity:' + name)
+    # ---- lower-case letters that case FOLDING would replace (sharp s, micro
+    # sign, final sigma, long s, ligatures): LOWER leaves a text that is
+    # already lower-case as it is -------------------------------------------
+    if ctx.shard in (4, 5) or thorough:
+        lowers = ['stra\u00dfe', '5 \u00b5m', '\u03c2', '\u017ft', '\ufb01ne',
+                  '\u0149', '\u1fb3', 'wei\u00df', '\u03bc\u00b5', 'ma\u00dfe \u03c2']
+        forms = {}
+        for t in lowers:
+            assert t.lower() == t
+            q = subject.lit(t)
+            forms[f'=LOWER({q})'] = ('text', t)
+            forms[f'=EXACT(LOWER({q}),{q})'] = ('bool', True)
+            forms[f'=LEN(LOWER({q}))'] = ('num', float(len(t)))
+            forms[f'=LOWER(UPPER(LOWER({q})))=LOWER(UPPER({q}))'] = \
+                ('bool', True)
+        outs = subject.eval_batch(list(forms))
+        for (text, want), got in zip(forms.items(), outs):
+            ctx.event('formula_calls')
+            ctx.event('case_folding_letters')
+            ctx.case(('case-folding', text))
+            if got != ('value', want):
+                ctx.fail(f'{text}: observed {got}, expected {want} (the text '
+                         f'is lower-case already)',
+                         {'formula': text, 'observed': got, 'expected': want},
+                         monitor='string-semantics',
+                         group='case-folding:' + text[1:6])
+        for t in lowers:
+            got = monitors.call_outcome(R.F['LOWER'], t)
+            ctx.event('library_calls')
+            ctx.event('case_folding_letters')
+            if got != ('value', ('text', t)):
+                ctx.fail(f'LOWER({t!r}) -> {got}; the text is lower-case '
+                         f'already', {'function': 'LOWER', 'args': [t],
+                                      'observed': got},
+                         monitor='string-semantics', group='case-folding:lib')
     # ---- long & chains (the operator has no limit on the number of operands;
     # a formula may be 8192 characters long) ------------------------------------
     if ctx.shard in (2, 3) or thorough:
